@@ -234,4 +234,22 @@ theorem C07_untaintLoop_count_exact_dry (o : Oracle) (cs : List Node) (k need : 
 example : (untaintOutcomesDry ["b", "a"] [{ (default : Node) with name := "a" }, { (default : Node) with name := "c" },
     { (default : Node) with name := "b" }]).countP (untaintOk true) = 2 := by decide
 
+/-- **Dry mode writes nothing and remembers exactly what it counted**: the model's dry taint loop issues no call (empty journal,
+    oracle index untouched) and appends to the tracker the names of the first `need` candidates, in order — the nodes it counted. -/
+theorem taintLoop_dry_tracker (o : Oracle) (nowSec : Int) (effect : String) (cs : List Node) :
+    ∀ (k need : Nat) (tr : List String),
+      (taintLoop o true nowSec effect k cs need tr).val.tracker = tr ++ (cs.take need).map (·.name) ∧
+      (taintLoop o true nowSec effect k cs need tr).j = [] ∧ (taintLoop o true nowSec effect k cs need tr).k = k := by
+  induction cs with
+  | nil => intro k need tr; simp [taintLoop]
+  | cons c cs ih =>
+    intro k need tr
+    by_cases hn : need = 0
+    · simp [taintLoop, hn]
+    · obtain ⟨m, rfl⟩ : ∃ m, need = m + 1 := ⟨need - 1, by omega⟩
+      have := ih k m (tr ++ [c.name])
+      simp only [taintLoop, hn, if_false, if_true, Nat.add_sub_cancel, List.take_succ_cons, List.map_cons]
+      refine ⟨?_, this.2.1, this.2.2⟩
+      rw [this.1]; simp
+
 end Esc.P
